@@ -18,6 +18,7 @@ PROP = dict(
     ],
     harnesses=[
         H(NP, "c25", "c25_untampered", "valid request/response accepted with exactly the expected authenticated/encrypted content (accepting cipher)", tier="thorough"),
+        H(NP, "c25", "c25_auth_encoder", "hand-assembled authenticator + ghost log == real ExtensionField::encode_encrypted with ModelCipher (request and response)", tier="thorough"),
         H(NP, "c25", "c25_req_real_serializer", "NtpPacket::serialize(nts_poll_message) == assembled request image", tier="thorough"),
         H(NP, "c25", "c25_resp_real_serializer", "NtpPacket::serialize(response) == assembled response image", tier="thorough"),
         H(NP, "c25", "c25_req_trailer_accept", "request, trailer byte changed, accepting cipher: same authentic content", tier="thorough"),
